@@ -122,7 +122,7 @@ def _runner_main(jobs_path: str, out_path: str) -> None:
             cached, vals = ([], [])
             if cfg['storage']:
                 cached, vals = D.observe_cache(lab, built, cfg['n'])
-            insts = [[o.tid, int(getattr(o, 'result_meta', None) is not None), anc]
+            insts = [[o.tid, int(getattr(o, 'result_meta', None) is not None), anc, D.meta_token(o)]
                      for o, anc in D.walk_instances(req)]
             pair = None
             if job.get('ctx_pair') and cfg['storage']:
